@@ -202,6 +202,35 @@ func genData(g *dgen) (basis, target []byte, inserted int64, nedits int) {
 			}
 		}
 		target = target[:g.TSize]
+	case "collpool":
+		// Files assembled from a small pool of blocks that contains families of
+		// blocks with EQUAL weak checksum and different content (adding
+		// (+1,-2,+1) to three consecutive bytes keeps s1 and s2): every shortcut
+		// that trusts the weak checksum alone is exposed.  Size/TSize count blocks.
+		blk := g.P
+		var pool [][]byte
+		for f := 0; f < 3; f++ {
+			b := rnd(blk)
+			pool = append(pool, b)
+			for v := 0; v < 2; v++ {
+				c := append([]byte(nil), pool[len(pool)-1]...)
+				i := r.Intn(blk - 2)
+				c[i]++
+				c[i+1] -= 2
+				c[i+2]++
+				pool = append(pool, c)
+			}
+		}
+		for k := 0; k < g.Size; k++ {
+			basis = append(basis, pool[r.Intn(len(pool))]...)
+		}
+		basis = append(basis, rnd(r.Intn(blk))...) // remainder block
+		for k := 0; k < g.TSize; k++ {
+			target = append(target, pool[r.Intn(len(pool))]...)
+			if r.Intn(5) == 0 {
+				target = append(target, rnd(1+r.Intn(3))...)
+			}
+		}
 	case "remreuse":
 		// the basis' short last block also occurs in the middle of the target
 		blk := g.P
@@ -257,13 +286,15 @@ func compressRefs(toks []deltaTok) []deltaTok {
 	return out
 }
 
-func deltaHandler(w *workerCtx, line []byte) (any, error) {
-	var s deltaScn
-	if err := json.Unmarshal(line, &s); err != nil {
-		return nil, err
-	}
+type deltaItem struct {
+	basis, target []byte
+	blk, s2       int32
+	obs           *deltaObs
+}
+
+func prepareDelta(s *deltaScn, raw []byte) *deltaItem {
 	var basis, target []byte
-	obs := &deltaObs{ID: s.ID, Class: s.Class, Scn: json.RawMessage(line)}
+	obs := &deltaObs{ID: s.ID, Class: s.Class, Scn: json.RawMessage(raw)}
 	if s.Gen != nil {
 		basis, target, obs.Inserted, obs.NEdits = genData(s.Gen)
 		obs.Bounded = s.Bounded
@@ -295,32 +326,29 @@ func deltaHandler(w *workerCtx, line []byte) (any, error) {
 				obs.Inserted += int64(width(v))
 			}
 		}
-		if basis == nil {
-			basis = []byte{}
-		}
-		if target == nil {
-			target = []byte{}
-		}
 		obs.Slack = int64(s.Slack * scale)
 		obs.NEdits = s.Edits
 		obs.Bounded = true
 		if scale == 1 && len(basis) <= 24 && len(target) <= 24 {
 			obs.Small = true
-			obs.Basis = intsOf(basis)
-			obs.Target = intsOf(target)
 		}
 	} else {
-		scale := s.Scale
-		if scale < 1 {
-			scale = 1
-		}
+		scale := max(s.Scale, 1)
 		basis = concretise(s.Basis, scale, int64(s.ID))
 		target = concretise(s.Target, scale, int64(s.ID))
 		if scale == 1 && len(basis) <= 24 && len(target) <= 24 {
 			obs.Small = true
-			obs.Basis = intsOf(basis)
-			obs.Target = intsOf(target)
 		}
+	}
+	if basis == nil {
+		basis = []byte{}
+	}
+	if target == nil {
+		target = []byte{}
+	}
+	if obs.Small {
+		obs.Basis = intsOf(basis)
+		obs.Target = intsOf(target)
 	}
 	blk := s.Blk
 	if s.Scale > 1 {
@@ -329,11 +357,14 @@ func deltaHandler(w *workerCtx, line []byte) (any, error) {
 	if blk == 0 {
 		blk = realBlk(len(basis))
 	}
-	obs.TLen, obs.BLen, obs.Blk, obs.S2 = len(target), len(basis), blk, s.S2
-	err := senderDelta(w, basis, target, blk, s.S2, obs)
-	if err != nil {
-		obs.Err = err.Error()
+	if blk < 0 && s.Gen != nil {
+		blk = int32(s.Gen.P) // the generator's own block length
 	}
+	obs.TLen, obs.BLen, obs.Blk, obs.S2 = len(target), len(basis), blk, s.S2
+	return &deltaItem{basis: basis, target: target, blk: blk, s2: s.S2, obs: obs}
+}
+
+func finishObs(obs *deltaObs) {
 	if !obs.Small {
 		obs.Toks = compressRefs(obs.Toks)
 	}
@@ -351,22 +382,66 @@ func deltaHandler(w *workerCtx, line []byte) (any, error) {
 			obs.Toks[i].D = []int{}
 		}
 	}
-	return obs, nil
 }
 
-// senderDelta plays a reference receiver against the real sender for one file.
-func senderDelta(w *workerCtx, basis, target []byte, blk, s2 int32, obs *deltaObs) error {
+// A scenario line is either one file or {"session":[file, file, ...]}: several
+// files requested one after the other in ONE sender session (sender state that
+// survives from file to file is thereby exercised).
+func deltaHandler(w *workerCtx, line []byte) (any, error) {
+	var probe struct {
+		Session []json.RawMessage `json:"session"`
+	}
+	if err := json.Unmarshal(line, &probe); err != nil {
+		return nil, err
+	}
+	raws := probe.Session
+	if len(raws) == 0 {
+		raws = []json.RawMessage{line}
+	}
+	var items []*deltaItem
+	for _, raw := range raws {
+		var s deltaScn
+		if err := json.Unmarshal(raw, &s); err != nil {
+			return nil, err
+		}
+		items = append(items, prepareDelta(&s, raw))
+	}
+	err := senderSession(w, items)
+	var out []*deltaObs
+	for _, it := range items {
+		if err != nil && it.obs.Err == "" && !it.obs.Ended {
+			it.obs.Err = err.Error()
+		}
+		finishObs(it.obs)
+		out = append(out, it.obs)
+	}
+	if len(probe.Session) == 0 {
+		return out[0], nil
+	}
+	return map[string]any{"multi": out}, nil
+}
+
+// senderSession plays a reference receiver against the real sender: one
+// session, one request per item (in file-list order).
+func senderSession(w *workerCtx, items []*deltaItem) error {
 	modDir := filepath.Join(w.dir, "mod")
+	os.RemoveAll(modDir)
 	os.MkdirAll(modDir, 0o755)
-	if err := os.WriteFile(filepath.Join(modDir, "f"), target, 0o644); err != nil {
-		return err
+	var names []string
+	for k, it := range items {
+		name := fmt.Sprintf("f%03d", k)
+		names = append(names, name)
+		if err := os.WriteFile(filepath.Join(modDir, name), it.target, 0o644); err != nil {
+			return err
+		}
 	}
 	srv, err := drv.NewServer(nil, nil)
 	if err != nil {
 		return err
 	}
 	mod := &rsyncd.Module{Name: "m", Path: modDir}
-	p := drv.StartCommand(srv, mod, []string{"--server", "--sender", ".", "f"}, -1, -1, nil)
+	args := append([]string{"--server", "--sender", "."}, names...)
+	p := drv.StartCommand(srv, mod, args, -1, -1, nil)
 	defer p.End.Close()
 	cs, err := drv.CommandHandshake(p)
 	if err != nil {
@@ -377,12 +452,51 @@ func senderDelta(w *workerCtx, basis, target []byte, blk, s2 int32, obs *deltaOb
 	if err != nil {
 		return fmt.Errorf("file list: %w", err)
 	}
-	if len(fl.Entries) != 1 || fl.Entries[0].Name != "f" {
+	if len(fl.Entries) != len(items) {
 		return fmt.Errorf("unexpected file list %+v", fl.Entries)
 	}
+	for k, e := range fl.SortedEntries() {
+		if e.Name != names[k] {
+			return fmt.Errorf("unexpected file list %+v", fl.Entries)
+		}
+	}
+	for k, it := range items {
+		if err := senderOne(p, cs, int32(k), it); err != nil {
+			it.obs.Err = err.Error()
+			return err
+		}
+	}
+	// orderly end of session
+	cs.Up.Int32(-1)
+	if v, err := cs.Down.Int32(); err != nil || v != -1 {
+		return srvErr(p, cs, "phase ack", err)
+	}
+	cs.Up.Int32(-1)
+	if v, err := cs.Down.Int32(); err != nil || v != -1 {
+		return srvErr(p, cs, "final ack", err)
+	}
+	for i := 0; i < 3; i++ {
+		if _, err := cs.Down.Int64(); err != nil {
+			return srvErr(p, cs, "stats", err)
+		}
+	}
+	cs.Up.Int32(-1)
+	select {
+	case err := <-p.Done:
+		if err != nil {
+			return fmt.Errorf("server: %v", err)
+		}
+	case <-time.After(20 * time.Second):
+		return fmt.Errorf("server did not finish")
+	}
+	return nil
+}
+
+func senderOne(p *drv.Peer, cs *drv.ClientSide, index int32, it *deltaItem) error {
+	basis, target, blk, s2, obs := it.basis, it.target, it.blk, it.s2, it.obs
 	head, sums := wirekit.Sums(cs.Seed, basis, blk, s2)
 	obs.Count, obs.Rem = head.Count, head.Rem
-	cs.Up.Int32(0)
+	cs.Up.Int32(index)
 	cs.Up.SumHead(head)
 	for _, s := range sums {
 		cs.Up.Int32(int32(s.Weak))
@@ -395,7 +509,7 @@ func senderDelta(w *workerCtx, basis, target []byte, blk, s2 int32, obs *deltaOb
 	if err != nil {
 		return srvErr(p, cs, "reading index", err)
 	}
-	obs.IdxOK = idx == 0
+	obs.IdxOK = idx == index
 	eh, err := cs.Down.SumHead()
 	if err != nil {
 		return srvErr(p, cs, "reading header", err)
@@ -453,29 +567,6 @@ func senderDelta(w *workerCtx, basis, target []byte, blk, s2 int32, obs *deltaOb
 	obs.Ended = true
 	want := wirekit.FileSum(cs.Seed, target)
 	obs.SumOK = bytes.Equal(sum, want[:])
-	// orderly end of session
-	cs.Up.Int32(-1)
-	if v, err := cs.Down.Int32(); err != nil || v != -1 {
-		return srvErr(p, cs, "phase ack", err)
-	}
-	cs.Up.Int32(-1)
-	if v, err := cs.Down.Int32(); err != nil || v != -1 {
-		return srvErr(p, cs, "final ack", err)
-	}
-	for i := 0; i < 3; i++ {
-		if _, err := cs.Down.Int64(); err != nil {
-			return srvErr(p, cs, "stats", err)
-		}
-	}
-	cs.Up.Int32(-1)
-	select {
-	case err := <-p.Done:
-		if err != nil {
-			return fmt.Errorf("server: %v", err)
-		}
-	case <-time.After(20 * time.Second):
-		return fmt.Errorf("server did not finish")
-	}
 	return nil
 }
 
